@@ -242,6 +242,33 @@ def run(ck, replay=None):
         sel = thists if not quick else [h for h in thists if len(h) <= 4]
         tspecs.append((sel, "correction-" + kind, make, use, lambda x, y: all(p_.shape == q_.shape and np.allclose(p_, q_, rtol=1e-6, atol=1e-7) for p_, q_ in zip(x, y)), "twin:" + kind))
     ck.cov["twin_object_histories"] = twoobj.run(ck, "C10", tspecs)
+    # one correction used again after calls it rejected (spec/FailedCalls.tla): inputs of the wrong kind in turn
+    from lib import failedcalls
+    fhists = failedcalls.histories(ck)
+    fspecs = []
+    # (inputs of another spatial shape are left out: CurvatureCorrection caches its grid un-keyed - the observation of CorrectionCache.tla)
+    bad_inputs = [None, np.zeros((3,)), "not an image", np.zeros((Ht, Wt, 3), dtype=complex)[:, :, :0]]
+    for kind, mk in makers.items():
+        for bi, bad_in in enumerate(bad_inputs):
+            def fmake(mk=mk):
+                with warnings.catch_warnings(), contextlib.redirect_stdout(io.StringIO()):
+                    warnings.simplefilter("ignore")
+                    return mk("a")
+
+            def fuse(corr):
+                with warnings.catch_warnings(), contextlib.redirect_stdout(io.StringIO()):
+                    warnings.simplefilter("ignore")
+                    r_ = np.asarray(corr.correct_array(tin.copy()))
+                return [np.asarray(r_, dtype=float), np.array([r_.dtype.itemsize], dtype=float)]
+
+            def fmisuse(corr, bad_in=bad_in, bi=bi):
+                with warnings.catch_warnings(), contextlib.redirect_stdout(io.StringIO()):
+                    warnings.simplefilter("ignore")
+                    return corr(bad_in) if bi % 2 else corr.correct_array(bad_in)
+
+            fspecs.append((fhists, f"correction-{kind}-bad{bi}", fmake, fuse, fmisuse,
+                           lambda x, y: all(p_.shape == q_.shape and np.allclose(p_, q_, rtol=1e-6, atol=1e-7) for p_, q_ in zip(x, y)), f"failed:{kind}:{bi}"))
+    ck.cov["failed_call_histories"] = failedcalls.run(ck, "C10", fspecs)
     events = []
     work = tempfile.mkdtemp(prefix="c10-", dir=ck.work)
     for rep in range(1 if quick else 6):
